@@ -26,6 +26,7 @@ const (
 	opSetID  = 3
 	opJoinPartial = 4
 	opJoinOlder   = 5
+	opJoinFresh   = 6
 )
 
 type histCfg struct {
@@ -34,6 +35,8 @@ type histCfg struct {
 	symClock bool
 	reload   bool // step kind "reload": rebuild the replica from its entries with NewLog (what the loaders do)
 	deny     bool // replica 0 refuses entries signed by the last writer
+	denyP0   bool // only replica 0 refuses the denyP-th payload (the others create and hold that entry)
+	closing  bool // after the K steps every replica merges a fresh single-entry log of its own writer (one more observed step each)
 	pcAlt    int  // if non-zero: each append uses the default pointer count or this one
 	pcN      int  // number of pointer-count alternatives tried at each append (1 = default only)
 	emptyAt  int  // index of the append that carries an empty payload (-1 = none)
@@ -46,7 +49,7 @@ type histCfg struct {
 
 func histParams() histCfg {
 	return histCfg{R: vx.Param("R", 2), K: vx.Param("K", 3), W: vx.Param("W", 2), sort: vx.Param("SORT", sortHash),
-		symClock: vx.Param("SYMCLOCK", 0) == 1, reload: vx.Param("RELOAD", 0) == 1, deny: vx.Param("DENY", 0) == 1, pcN: vx.Param("PCN", 1), emptyAt: vx.Param("EMPTYAT", -1), realIO: vx.Param("REALIO", 0) == 1, setID: vx.Param("SETID", 0) == 1, partial: vx.Param("PARTIAL", 0) >= 1, older: vx.Param("PARTIAL", 0) == 2, denyP: vx.Param("DENYP", -1), pcAlt: vx.Param("PCALT", 0)}
+		symClock: vx.Param("SYMCLOCK", 0) == 1, reload: vx.Param("RELOAD", 0) == 1, deny: vx.Param("DENY", 0) == 1, pcN: vx.Param("PCN", 1), emptyAt: vx.Param("EMPTYAT", -1), realIO: vx.Param("REALIO", 0) == 1, setID: vx.Param("SETID", 0) == 1, partial: vx.Param("PARTIAL", 0) >= 1, older: vx.Param("PARTIAL", 0) == 2, denyP: vx.Param("DENYP", -1), pcAlt: vx.Param("PCALT", 0), denyP0: vx.Param("DENYP0", 0) == 1, closing: vx.Param("CLOSE", 0) == 1}
 }
 
 var pcTable = []int{0, 2, 4, 3, 8, -1, 16, 1}
@@ -100,7 +103,7 @@ func newHist(cfg histCfg) *hist {
 		if cfg.deny && r == 0 && cfg.W > 1 {
 			o.AccessController = &denyWriter{id: h.ids[cfg.W-1].ID}
 		}
-		if cfg.denyP >= 0 {
+		if cfg.denyP >= 0 && (r == 0 || !cfg.denyP0) {
 			o.AccessController = &denyPayload{p: []byte{'p', byte('0' + cfg.denyP)}, inner: o.AccessController}
 		}
 		h.acs = append(h.acs, o.AccessController)
@@ -223,6 +226,26 @@ func (h *hist) run(pre func(h *hist), post func(h *hist)) {
 		vx.Observe("heads", h.logs[h.dst].Heads().Len())
 		if post != nil {
 			post(h)
+		}
+	}
+	if h.cfg.closing {
+		for r := 0; r < R; r++ {
+			h.step++
+			h.kind, h.dst, h.src, h.res, h.err, h.pc = opJoinFresh, r, -1, nil, nil, 0
+			if pre != nil {
+				pre(h)
+			}
+			fresh := newLogOpt(h.api, h.writerOf(r), &ipfslog.LogOptions{SortFn: h.sortFn(), IO: h.io()})
+			if _, err := fresh.Append(ctx, []byte{'f', byte('0' + r)}, nil); err != nil {
+				panic(err)
+			}
+			_, h.err = h.logs[r].Join(fresh, -1)
+			vx.ObserveB("err", h.err != nil)
+			vx.ObserveS("values", payloads(h.logs[r].Values().Slice()))
+			vx.Observe("heads", h.logs[r].Heads().Len())
+			if post != nil {
+				post(h)
+			}
 		}
 	}
 	vx.Cover("history-complete")
